@@ -89,6 +89,13 @@ type Case struct {
 
 	// client cases of the host dimension (hosts.go): the host the request names, before any percent-encoding
 	HostHex string `json:"host_hex,omitempty"`
+
+	// cut / upload cases under an HTTP log mode other than the default (logmode.go): none | short-url | url |
+	// headers | body | errors ("" = the configuration's default)
+	LogMode string `json:"log_mode,omitempty"`
+	// accept (accept.go): what the listener's Accept calls return, in order: "c" = a connection (a probe request
+	// on a fresh connection) | the name of an error (acceptErrs); What = "rlimit": real descriptor exhaustion
+	Accept []string `json:"accept,omitempty"`
 }
 
 func (c *Case) head() []byte { return core.MustUnHex(orEmpty(c.HeadHex)) }
@@ -521,5 +528,9 @@ func generate(r *core.Rand, quick bool) []*Case {
 			g.add(&Case{Kind: "connect", Via: via, Upstream: "up", ReplyHex: core.HexS(rejections[1]), CK: -1}).ReqMinor = minor
 		}
 	}
+	// M. the torn-reply matrix and torn client uploads under every HTTP log mode (logmode.go)
+	genLogModes(g, quick)
+	// N. Accept errors of the listener: the accept loop backs off and goes on, or returns (accept.go)
+	genAccept(g, quick)
 	return g.out
 }
